@@ -226,8 +226,12 @@ pub fn c12_process_case(ctx: &Ctx, env: &RealEnv, dir: &Path, case: u64, seed: u
                             d.extend_from_slice(b" \\\n ");
                         }
                     }
-                    if rng.chance(3, 4) {
-                        d.push(b'\n');
+                    match rng.below(8) {
+                        // a writer that ends every entry with ` \` and stops there; a truncated file
+                        0 | 3 => d.extend_from_slice(b" \\"),
+                        1 => d.push(b'\\'),
+                        2 => {}
+                        _ => d.push(b'\n'),
                     }
                 }
                 2 => {
